@@ -119,7 +119,7 @@ theorem isExpired_shiftF (δ : Int) (f : FdtRecv σ) (now : Int) (hn : TimeSane 
 theorem shiftF_setSt (δ : Int) (f : FdtRecv σ) (st : FdtState) :
     shiftF δ { f with st := st } = { shiftF δ f with st := st } := by
   cases f with
-  | mk fdtId obj st0 expires inst utf8 offset late check hasMeta =>
+  | mk fdtId obj st0 expires inst utf8 offset late check hasMeta bytes =>
     cases offset <;> rfl
 
 theorem updateExpired_pos (f : FdtRecv σ) (now : Int) (h : f.st = .complete ∧ f.check = true) :
@@ -167,7 +167,7 @@ theorem updateExpired_shiftF (δ : Int) (f : FdtRecv σ) (now : Int) (hn : TimeS
 theorem shiftF_applyWEv (δ : Int) (ans : FdtAns) (g : FdtRecv σ) (e : WEv) :
     shiftF δ (g.applyWEv ans e) = (shiftF δ g).applyWEv ans e := by
   cases g with
-  | mk fdtId obj st0 expires inst utf8 offset late check hasMeta =>
+  | mk fdtId obj st0 expires inst utf8 offset late check hasMeta bytes =>
     cases offset <;> cases e <;> (try cases ans) <;> rfl
 
 theorem shiftF_applyWEvs (δ : Int) (ans : FdtAns) (g : FdtRecv σ) (evs : List WEv) :
@@ -181,18 +181,18 @@ theorem shiftF_applyWEvs (δ : Int) (ans : FdtAns) (g : FdtRecv σ) (evs : List 
 theorem shiftF_setObj (δ : Int) (g : FdtRecv σ) (x : Option σ) :
     shiftF δ { g with obj := x } = { shiftF δ g with obj := x } := by
   cases g with
-  | mk fdtId obj st0 expires inst utf8 offset late check hasMeta => cases offset <;> rfl
+  | mk fdtId obj st0 expires inst utf8 offset late check hasMeta bytes => cases offset <;> rfl
 
 theorem shiftF_setMetaObj (δ : Int) (g : FdtRecv σ) :
     shiftF δ ({ g with hasMeta := true, obj := none } : FdtRecv σ) =
       ({ shiftF δ g with hasMeta := true, obj := none } : FdtRecv σ) := by
   cases g with
-  | mk fdtId obj st0 expires inst utf8 offset late check hasMeta => cases offset <;> rfl
+  | mk fdtId obj st0 expires inst utf8 offset late check hasMeta bytes => cases offset <;> rfl
 
 theorem shiftF_setObjSt (δ : Int) (g : FdtRecv σ) (x : Option σ) (st : FdtState) :
     shiftF δ { g with obj := x, st := st } = { shiftF δ g with obj := x, st := st } := by
   cases g with
-  | mk fdtId obj st0 expires inst utf8 offset late check hasMeta => cases offset <;> rfl
+  | mk fdtId obj st0 expires inst utf8 offset late check hasMeta bytes => cases offset <;> rfl
 
 /-- `FdtReceiver::push` after the EXT_TIME part -/
 def pushRest (I : ObjIface σ) (g : FdtRecv σ) (p : Pkt) (ans : FdtAns) : FdtRecv σ :=
@@ -243,7 +243,7 @@ theorem shiftF_pushRest (δ : Int) (I : ObjIface σ) (g : FdtRecv σ) (p : Pkt) 
 theorem shiftF_observeSct (δ : Int) (f : FdtRecv σ) (res now : Int) :
     shiftF δ (f.observeSct (some res) now) = (shiftF δ f).observeSct (some res) (now + δ) := by
   cases f with
-  | mk fdtId obj st0 expires inst utf8 offset late check hasMeta =>
+  | mk fdtId obj st0 expires inst utf8 offset late check hasMeta bytes =>
     unfold FdtRecv.observeSct
     simp only []
     by_cases h1 : res < now
